@@ -1184,6 +1184,30 @@ func ruleStdioWiring(c *Ctx) {
 			}
 		}
 		if !found {
+			// the call may have moved to the caller of fn: take it wherever it is
+			for _, g := range p.Funcs {
+				if g.Decl == nil || strings.HasSuffix(p.Fset.Position(g.Body.Pos()).Filename, "testing.go") {
+					continue
+				}
+				for _, call := range g.Calls() {
+					holder := p.EnclosingFunc(call)
+					if holder == nil {
+						holder = g
+					}
+					ce := p.FnOf(asFunc(p.Callee(holder, call)))
+					if ce == nil || ce.Name != callee {
+						continue
+					}
+					found = true
+					for i := from; i < len(call.Args); i++ {
+						if pv := paramVar(ce, i); pv != nil {
+							edge(g, call.Args[i], "argument -> parameter of "+callee, p.exprLabel(g, call.Args[i]), streamLabel(pv.Name()))
+						}
+					}
+				}
+			}
+		}
+		if !found {
 			c.R.Undecided("R-TABLE/stdio", fn, "call of "+callee, "call not found")
 		}
 	}
